@@ -140,9 +140,16 @@ impl RelayMap {
 
     /// Extends this `RelayMap` with another one.
     pub fn extend(&self, other: &RelayMap) {
-        let mut a = self.relays.write().expect("poisoned");
-        let b = other.relays.read().expect("poisoned");
-        a.extend(b.iter().map(|(a, b)| (a.clone(), b.clone())));
+        // Snapshot `other` and release its lock before locking `self`: `other` may be a clone
+        // sharing the same lock, and two maps may extend each other concurrently.
+        let entries: Vec<_> = other
+            .relays
+            .read()
+            .expect("poisoned")
+            .iter()
+            .map(|(a, b)| (a.clone(), b.clone()))
+            .collect();
+        self.relays.write().expect("poisoned").extend(entries);
     }
 
     /// Sets an authorization token for all relays configured in this relay map.
